@@ -57,8 +57,8 @@ inductive Tok where
   | bad                    -- characters that are neither a constant nor a name
 
 /-! ## constants: `ConstIntVal` for the Motorola-syntax target used by the correspondence,
-`ConstFloatVal` for `digits.digits`, `ConstStringVal` without escapes (see Model/IntConst.lean for the
-full `ConstIntVal`) -/
+`ConstFloatVal` for `digits.digits` (see Model/IntConst.lean for the full `ConstIntVal`); `ConstStringVal` and
+`ProcessBk` below, in front of the tokeniser -/
 
 def digitVal (c : Char) (base : Nat) : Option Nat :=
   let u := if 'a' ≤ c ∧ c ≤ 'z' then Char.ofNat (c.toNat - 32) else c
@@ -108,43 +108,131 @@ def classify (s : List Char) : Tok :=
 
 /-! ## the tokeniser -/
 
-/-- body of a string/character constant opened by `q`: (unescaped body, text after the closing quote, only modelled escapes used) -/
-def strConstBody (q : Char) : List Char → List Char → Option (List Char × List Char × Bool)
-  | [], _ => none
-  | c :: rest, acc =>
-    if c == q then some (acc.reverse, rest, true)
-    else if c == '\\' then
-      match rest with
-      | e :: rest' =>
-        if e == '\\' ∨ e == '"' ∨ e == '\'' then strConstBody q rest' (e :: acc)
-        else (strConstBody q rest' (e :: acc)).map fun r => (r.1, r.2.1, false)
-      | [] => none
-    else strConstBody q rest (c :: acc)
+/-! ### string constants: the quote/escape state of `EvalStrExpression`'s scan, `ConstStringVal`, `ProcessBk` -/
 
-def lexAux : Nat → List Char → List Char → List Tok → List Tok
+/-- the scan of `EvalStrExpression` inside a constant opened by `q` (`InSgl`/`InDbl`, `ThisEscaped`/`NextEscaped`):
+a backslash that is not itself escaped escapes the next character, the constant ends at the first quote `q`
+that is not escaped.  Returns the text between the quotes and the text behind the closing quote. -/
+def strEnd (q : Char) : List Char → Bool → List Char → Option (List Char × List Char)
+  | [], _, _ => none
+  | c :: rest, esc, acc =>
+    if c == q && !esc then some (acc.reverse, rest)
+    else strEnd q rest (c == '\\' && !esc) (c :: acc)
+
+/-- `as_toupper` on a character code -/
+def cUpN (n : Nat) : Nat := if 97 ≤ n ∧ n ≤ 122 then n - 32 else n
+
+/-- start value of `cnt` in `ProcessBk`: `cnt = (System == 16) ? 1 : ((System == 10) ? 0 : -1);` -/
+def bkCntStart (sys : Nat) : Int := if sys = 16 then 1 else if sys = 10 then 0 else -1
+
+/-- digit recognition of the loop (on `ch = as_toupper(**Start)`): `0`..`9` always, `A`..`F` when `System == 16` -/
+def bkDigit (sys : Nat) (c : Char) : Option Nat :=
+  let ch := cUpN c.toNat
+  if 48 ≤ ch ∧ ch ≤ 57 then some (ch - 48)
+  else if sys = 16 ∧ 65 ≤ ch ∧ ch ≤ 70 then some (ch - 55)
+  else none
+
+/-- the `do … while ((!Finish) && (cnt < 3))` loop of `ProcessBk`; `k` = iterations still allowed
+(`3 - cnt`, at least one since the body runs before the test).  Result: `Acc` and the text not consumed. -/
+def bkLoop (sys : Nat) : Nat → List Char → Nat → Except Err (Nat × List Char)
+  | 0, text, acc => .ok (acc, text)
+  | _ + 1, [], acc => .ok (acc, [])
+  | k + 1, c :: rest, acc =>
+    match bkDigit sys c with
+    | none => .ok (acc, c :: rest)                 -- Finish
+    | some d =>
+      if d ≥ sys then .error .overRange            -- WrError(ErrNum_OverRange)
+      else bkLoop sys k rest (acc * sys + d)
+
+/-- the numeric branch of `ProcessBk` from the first digit on (`System` already chosen) -/
+def bkNumber (sys : Nat) (text : List Char) : Except Err (Char × List Char) :=
+  match bkLoop sys (max 1 (3 - bkCntStart sys).toNat) text 0 with
+  | .error e => .error e
+  | .ok (acc, rest) => if acc ≤ 255 then .ok (Char.ofNat acc, rest) else .error .overRange   -- ChkRange(Acc, 0, 255)
+
+/-- `ProcessBk` on the text behind a backslash: the character and the text behind the escape sequence
+(`switch (as_toupper(**Start))`, character codes: `'` 39, `\\` 92, `"` 34, `H` 72, `I` 73, `B` 66, `A` 65, `E` 69, `T` 84, `N` 78,
+`R` 82, `X` 88, `0`..`9` 48..57) -/
+def processBk : List Char → Except Err (Char × List Char)
+  | [] => .error .symbol                            -- ErrNum_InvEscSequence
+  | c :: rest =>
+    let n := c.toNat
+    let u := cUpN n
+    if n = 39 ∨ n = 92 ∨ n = 34 then .ok (c, rest)
+    else if u = 72 then .ok (Char.ofNat 39, rest)
+    else if u = 73 then .ok (Char.ofNat 34, rest)
+    else if u = 66 then .ok (Char.ofNat 8, rest)
+    else if u = 65 then .ok (Char.ofNat 7, rest)
+    else if u = 69 then .ok (Char.ofNat 27, rest)
+    else if u = 84 then .ok (Char.ofNat 9, rest)
+    else if u = 78 then .ok (Char.ofNat 10, rest)
+    else if u = 82 then .ok (Char.ofNat 13, rest)
+    else if u = 88 then bkNumber 16 rest
+    else if 48 ≤ n ∧ n ≤ 57 then bkNumber (if n = 48 then 8 else 10) (c :: rest)
+    else .error .symbol                             -- ErrNum_InvEscSequence
+
+/-- text up to the first `}` (`QuotPos(…, '}')` on a text without brackets and quotes) and the text behind it -/
+def braceEnd : List Char → List Char → Option (List Char × List Char)
+  | [], _ => none
+  | c :: rest, acc => if c == '}' then some (acc.reverse, rest) else braceEnd rest (c :: acc)
+
+/-- `SysString(…, OutRadixBase = 10, …)`: the 64-bit pattern in decimal -/
+def sysString10 (v : W) : List Char := natDigits 10 64 v.toNat
+
+/-- `ConstStringVal` on the text between the quotes: verbatim parts (which must not contain the quote), `\{…}`
+(evaluated by `ev`, an integer result written with `SysString`, a string result appended), `ProcessBk` escapes -/
+def constStr (ev : List Char → Except Err Val) (q : Char) : Nat → List Char → List Char → Except Err (List Char)
+  | 0, _, _ => .error .fuel
+  | _ + 1, [], acc => .ok acc.reverse
+  | f + 1, c :: rest, acc =>
+    if c == '\\' then
+      if rest.head? == some '{' then
+        match braceEnd rest.tail [] with
+        | none => .error .symbol
+        | some (inner, after) =>
+          match ev inner with
+          | .ok (.int v) => constStr ev q f after ((sysString10 v).reverse ++ acc)
+          | .ok (.str t) => constStr ev q f after (t.reverse ++ acc)
+          | .ok (.flt _) => .error .undef            -- `FloatString`: outside the model
+          | .error e => .error e
+      else
+        match processBk rest with
+        | .error e => .error e
+        | .ok (ch, r) => constStr ev q f r (ch :: acc)
+    else if c == q then .error .symbol               -- "not a simple string but something like "...." ... ""
+    else constStr ev q f rest (c :: acc)
+
+def constStringVal (ev : List Char → Except Err Val) (q : Char) (raw : List Char) : Except Err (List Char) :=
+  constStr ev q (raw.length + 1) raw []
+
+def lexAux (ev : List Char → Except Err Val) : Nat → List Char → List Char → List Tok → List Tok
   | 0, _, _, acc => acc.reverse
   | fuel + 1, text, cur, acc =>
     let flush := fun (acc : List Tok) => if cur.isEmpty then acc else classify cur.reverse :: acc
     match text with
     | [] => (flush acc).reverse
     | c :: rest =>
-      if c == ' ' ∨ c == '\t' then lexAux fuel rest [] (flush acc)
-      else if c == '(' then lexAux fuel rest [] (.lp :: flush acc)
-      else if c == ')' then lexAux fuel rest [] (.rp :: flush acc)
-      else if c == ',' then lexAux fuel rest [] (.comma :: flush acc)
+      if c == ' ' ∨ c == '\t' then lexAux ev fuel rest [] (flush acc)
+      else if c == '(' then lexAux ev fuel rest [] (.lp :: flush acc)
+      else if c == ')' then lexAux ev fuel rest [] (.rp :: flush acc)
+      else if c == ',' then lexAux ev fuel rest [] (.comma :: flush acc)
       else if c == '"' ∨ (c == '\'' ∧ cur.isEmpty) then
-        -- the constant ends at the first quote that is not escaped; `\\\\`, `\\"`, `\\'` stand for the second character
-        -- (EvalStrExpression's scan and ConstStringVal/ProcessBk agree on that); other escapes are outside the model
-        match strConstBody c rest [] with
-        | some (body, after, ok) => lexAux fuel after [] ((if ok then .atom (.str body) else .bad) :: flush acc)
-        | none => lexAux fuel [] [] (.bad :: flush acc)
+        -- the constant ends at the first quote that is not escaped (the scan's quote/escape state); its value is
+        -- `ConstStringVal` of the text between the quotes
+        match strEnd c rest false [] with
+        | some (raw, after) =>
+          match constStringVal ev c raw with
+          | .ok body => lexAux ev fuel after [] (.atom (.str body) :: flush acc)
+          | .error _ => lexAux ev fuel after [] (.bad :: flush acc)
+        | none => lexAux ev fuel [] [] (.bad :: flush acc)
       else
         let cs := candsOf text
         match cs.getLast? with
-        | some k => lexAux fuel (text.drop (rowOf k).idLen) [] (.op cs :: flush acc)
-        | none => lexAux fuel rest (c :: cur) acc
+        | some k => lexAux ev fuel (text.drop (rowOf k).idLen) [] (.op cs :: flush acc)
+        | none => lexAux ev fuel rest (c :: cur) acc
 
-def lex (s : List Char) : List Tok := lexAux (s.length + 1) s [] []
+/-- `ev` evaluates the formula text inside `\\{…}` of a string constant -/
+def lexW (ev : List Char → Except Err Val) (s : List Char) : List Tok := lexAux ev (s.length + 1) s [] []
 
 /-! ## the scan for the split operator -/
 
@@ -278,12 +366,18 @@ structure Quirks where
   /-- same place: `DeduceExpectTypeErrMsgMask(pFunction->ArgTypes[z1], …)` receives the `1 << Typ` coded
   `ArgTypes` although it switches over a mask of `TempType` values (`true` = as found) -/
   fnErrRaw : Bool := true
+  /-- `FuncCHARFROMSTR`: `p_str[…]` is a (signed) `char` that is converted to `LargeInt`: characters 128..255 come out as
+  -128..-1 (`true` = as found; `false` = the character code) -/
+  charSigned : Bool := true
+  /-- `strlencmp` (strutil.c): `((int)*p1) - ((int)*p2)` on plain `char` - the order of two strings is decided by their
+  characters as *signed* values (`true` = as found on a platform whose `char` is signed; `false` = by character code) -/
+  strCmpSigned : Bool := true
 deriving Repr, DecidableEq
 
 /-- the pinned tree -/
-def Quirks.pinned : Quirks := ⟨true, true, true, true, true, false, true⟩
+def Quirks.pinned : Quirks := ⟨true, true, true, true, true, false, true, true, true⟩
 /-- the documented behaviour -/
-def Quirks.none : Quirks := ⟨false, false, false, false, false, true, false⟩
+def Quirks.none : Quirks := ⟨false, false, false, false, false, true, false, false, false⟩
 
 def oddW (x : W) : Bool := x.getLsbD 0
 
@@ -399,14 +493,27 @@ def fltBody (q : Quirks) (id : List Char) (x y : Float) : Except Err Val :=
   else if id = ['<', '>'] ∨ id = ['!', '='] then .ok (.int (truth (x != y)))
   else .error .type
 
-def strBody (id : List Char) (a b : List Char) : Except Err Val :=
+/-- a character as `strlencmp` sees it: `(int)*p` on plain `char` -/
+def cmpChar (signed : Bool) (c : Char) : Int :=
+  if signed ∧ 128 ≤ c.toNat % 256 then ((c.toNat % 256 : Nat) : Int) - 256 else (c.toNat : Int)
+
+/-- `strlencmp` (sign of the result): first differing character, then the lengths -/
+def mStrCmp (signed : Bool) : List Char → List Char → Int
+  | [], [] => 0
+  | [], _ :: _ => -1
+  | _ :: _, [] => 1
+  | a :: as, b :: bs =>
+    if cmpChar signed a < cmpChar signed b then -1 else if cmpChar signed a > cmpChar signed b then 1 else mStrCmp signed as bs
+
+def strBody (q : Quirks) (id : List Char) (a b : List Char) : Except Err Val :=
+  let cmp := mStrCmp q.strCmpSigned a b
   if id = ['+'] then .ok (.str (a ++ b))
-  else if id = ['='] ∨ id = ['=', '='] then .ok (.int (truth (strCmp a b == 0)))
-  else if id = ['>'] then .ok (.int (truth (decide (strCmp a b > 0))))
-  else if id = ['<'] then .ok (.int (truth (decide (strCmp a b < 0))))
-  else if id = ['<', '='] then .ok (.int (truth (decide (strCmp a b ≤ 0))))
-  else if id = ['>', '='] then .ok (.int (truth (decide (strCmp a b ≥ 0))))
-  else if id = ['<', '>'] ∨ id = ['!', '='] then .ok (.int (truth (strCmp a b != 0)))
+  else if id = ['='] ∨ id = ['=', '='] then .ok (.int (truth (cmp == 0)))
+  else if id = ['>'] then .ok (.int (truth (decide (cmp > 0))))
+  else if id = ['<'] then .ok (.int (truth (decide (cmp < 0))))
+  else if id = ['<', '='] then .ok (.int (truth (decide (cmp ≤ 0))))
+  else if id = ['>', '='] then .ok (.int (truth (decide (cmp ≥ 0))))
+  else if id = ['<', '>'] ∨ id = ['!', '='] then .ok (.int (truth (cmp != 0)))
   else .error .type
 
 /-- `NonZString2Int` -/
@@ -505,7 +612,7 @@ def bodyOf (q : Quirks) (id : List Char) (l' r' : Val) : Except Err Val :=
   match l', r' with
   | .int a, .int b => (intBody q id a b).map .int
   | .flt x, .flt y => fltBody q id x y
-  | .str a, .str b => strBody id a b
+  | .str a, .str b => strBody q id a b
   | _, _ => if id = ['+'] then addMixed l' r' else .error .type
 
 /-- operator application after the operands are evaluated: type matching, conversion, body -/
@@ -563,6 +670,10 @@ def fnRowOf (name : List Char) : Option FnRow := functions.find? fun r => r.name
 def cToUpper (a : W) : W := if 97 ≤ a.toNat ∧ a.toNat ≤ 122 then a - 32 else a
 def cToLower (a : W) : W := if 65 ≤ a.toNat ∧ a.toNat ≤ 90 then a + 32 else a
 
+/-- a character of a string as `LargeInt`: through `char` (signed on the platforms the correspondence runs on) or as its code -/
+def charInt (signed : Bool) (c : Char) : W :=
+  if signed ∧ 128 ≤ c.toNat % 256 then wrap ((c.toNat % 256 : Nat) - 256) else BitVec.ofNat 64 c.toNat
+
 def fnBody (q : Quirks) (name : List Char) (args : List Val) : Except Err Val :=
   match args with
   | [.int a] =>
@@ -612,7 +723,7 @@ def fnBody (q : Quirks) (name : List Char) (args : List Val) : Except Err Val :=
       -- `(unsigned)pArgs[1].Contents.Int < len` looks at the low 32 bits only, the index is the full value
       if 0 ≤ p.toInt ∧ p.toNat % 2 ^ 32 < s.length then
         match s[p.toNat]? with
-        | some c => .ok (.int (BitVec.ofNat 64 c.toNat))
+        | some c => .ok (.int (charInt q.charSigned c))
         | none => .error .ub
       else .ok (.int (wrap (-1)))
     else .error .type
@@ -679,9 +790,16 @@ def modelM (q : Quirks) : MSem where
   fn := applyFn q
 
 /-- **the model of `EvalExpression` on a text** -/
-def evalStr (q : Quirks) (s : List Char) : Except Err Val :=
-  let ts := lex s
-  evalToks (modelM q) (ts.length + 2) ts
+def evalStrN (q : Quirks) : Nat → List Char → Except Err Val
+  | 0, _ => .error .fuel
+  | n + 1, s =>
+    let ts := lexW (evalStrN q n) s
+    evalToks (modelM q) (ts.length + 2) ts
+
+/-- nesting of `\\{…}` inside string constants inside `\\{…}`: three levels are modelled -/
+def evalStr (q : Quirks) (s : List Char) : Except Err Val := evalStrN q 4 s
+
+def lex (q : Quirks) (s : List Char) : List Tok := lexW (evalStrN q 3) s
 
 /-! ## token-level rendering of a formula (what `lex (render f)` is expected to be) -/
 
@@ -698,6 +816,7 @@ def wrapT (b : Bool) (t : List Tok) : List Tok := if b then [.lp] ++ t ++ [.rp] 
 
 def toks : Formula → List Tok
   | .lit v => [.atom v]
+  | .sc _ items => [.atom (.str (decodeItems items))]
   | .un u e => [.op (candsOf u.spelling)] ++ wrapT (u.rank ≤ e.rootRank) (toks e)
   | .bin o l r =>
     wrapT (o.rank < l.rootRank) (toks l) ++ [.op (candsOf o.spelling)] ++ wrapT (o.rank ≤ r.rootRank) (toks r)
@@ -710,6 +829,7 @@ def semOf (M : MSem) : Sem := ⟨fun u => M.un (idxU u), fun o => M.bin (idxB o)
 
 def Formula.size : Formula → Nat
   | .lit _ => 1
+  | .sc _ _ => 1
   | .un _ e => 1 + Formula.size e
   | .bin _ l r => 1 + Formula.size l + Formula.size r
   | .fn1 _ a => 1 + Formula.size a
